@@ -14,13 +14,16 @@ def cell(s, n):
 
 def main():
     rows = []
+    fr = json.load(open(os.path.join(V, "benign", "first_runs.json"), encoding="utf-8"))
     for d in sorted(os.listdir(os.path.join(V, "benign"))):
         mp = os.path.join(V, "benign", d, "meta.json")
         if not os.path.exists(mp):
             continue
         m = json.load(open(mp, encoding="utf-8"))
         res = m.get("checks_run", {})
-        first = m.get("first_run")
+        first = fr.get(d)
+        if first and (m.get("alarms") or m.get("harness_errors")):
+            first = None  # not yet re-run after the correction: show the recorded outcome
         rows.append("| {} | {} | {} | {} | {} |".format(
             d, cell(m.get("summary", ""), 200), cell(m.get("behaviour_change", ""), 160),
             " ".join(sorted(res)), first or ("silent" if not m.get("alarms") and not m.get("harness_errors") else
